@@ -93,7 +93,7 @@ func newVStaking(n int, prefix string) *vStaking {
 		vh.Assume(v.Tokens.LTE(math.NewInt(1 << 62)))
 		p := vh.Int64(vh.Sprintf("%spower%d", prefix, i))
 		vh.Assume(p >= 0)
-		vh.Assume(p <= 1<<50)
+		vh.Assume(p <= int64(1)<<uint(vh.Bound("log2power", 50)))
 		s.vals = append(s.vals, v)
 		s.power = append(s.power, p)
 	}
@@ -323,19 +323,21 @@ type vEnv struct {
 	st  *vStaking
 	sl  *vSlashing
 	key *storetypes.KVStoreKey
+	stubKey *storetypes.KVStoreKey // store of stubs whose state must follow cache contexts
 }
 
 const vAuthority = "cosmos10d07y265gmmuvt4z0w9aw880jnsr700j6zn9kn"
 
 func newVEnv(nVals int) *vEnv {
 	key := storetypes.NewKVStoreKey(types.StoreKey)
+	stubKey := storetypes.NewKVStoreKey("vstubs")
 	now := vh.Time("now")
 	vh.Assume(now.UnixNano() >= 1000000000000000000)
 	vh.Assume(now.UnixNano() <= 4000000000000000000)
 	h := vh.Int64("height")
 	vh.Assume(h >= 1)
 	vh.Assume(h <= 1<<40)
-	ctx := vh.NewCtx(now, h, "provider", key)
+	ctx := vh.NewCtx(now, h, "provider", key, stubKey)
 	st := newVStaking(nVals, "")
 	sl := newVSlashing(st, "")
 	k := Keeper{
@@ -348,5 +350,5 @@ func newVEnv(nVals int) *vEnv {
 		consensusAddressCodec: address.NewBech32Codec("cosmosvalcons"),
 		feeCollectorName:      "fee_collector",
 	}
-	return &vEnv{ctx: ctx, k: k, st: st, sl: sl, key: key}
+	return &vEnv{ctx: ctx, k: k, st: st, sl: sl, key: key, stubKey: stubKey}
 }
